@@ -178,7 +178,7 @@ func RunSync(caseNo int, srcDir, dstDir string, o SyncOpts) (*SyncResult, error)
 		conn.R.Gate = func(op string, k int) { o.Gate("R", op, k) }
 	}
 	src := o.SrcFS
-	if src == nil {
+	if src == nil && o.PuppetS == nil {
 		src, err = fsutil.NewFS(srcDir)
 		if err != nil {
 			return nil, err
